@@ -52,6 +52,29 @@ def roundtrip():
     return cases, bad
 
 
+def parse_is_stateless():
+    """Parsing a scope string yields a location that depends on the string only: changing a parsed location (they are
+    mutable) must not influence what the next parse / the next filter run sees."""
+    cases, bad = 0, []
+    loc = SdcLocation(fac='f1', poc='p1', bed='bed1')
+    scope = loc.scope_string
+    for _ in range(3):
+        cases += 1
+        a = SdcLocation.from_scope_string(scope)
+        if a != loc:
+            bad.append({'key': 'parse-depends-on-history', 'detail': f'from_scope_string({scope!r}) gives {a!r} after an earlier result was modified'})
+            break
+        a.bed = 'bed2'          # e.g. "look at the neighbour bed"
+        a.fac = None
+        svc = types.SimpleNamespace(scopes=types.SimpleNamespace(text=[scope]))
+        inside = SdcLocation(fac='f1', poc='p1', bed='bed1').filter_services_inside([svc])
+        other = SdcLocation(fac='f1', poc='p1', bed='bed2').filter_services_inside([svc])
+        if len(inside) != 1 or len(other) != 0:
+            bad.append({'key': 'filter-depends-on-history', 'detail': f'service publishing {scope!r}: inside bed1 -> {len(inside)}, inside bed2 -> {len(other)} after a parsed location was modified'})
+            break
+    return cases, bad
+
+
 def raises_only():
     cases, bad = 0, []
     rnd = random.Random(SEED + 3)
@@ -118,7 +141,8 @@ def filter_foreign():
 if __name__ == '__main__':
     c = Collector()
     c.run('C16.roundtrip', 'B', roundtrip, bound='all 64 present/absent combinations x seeded values over 28 reserved / non-ASCII atoms; containment laws')
+    c.run('C16.parse_is_stateless', 'B', parse_is_stateless, bound='3 rounds of parse / modify / parse / filter on one scope string')
     c.run('C16.from_scope_string_raises', 'B', raises_only, bound='16 fixed + seeded random malformed scope strings: only UrlSchemeError / ValueError')
     c.run('C16.published_chain', 'B', published_chain, bound='63 non-empty combinations x seeded values through LocationContextState -> scopesfactory')
-    c.run('C16.filter_foreign', 'B', filter_foreign, bound='16 foreign scope strings', replay_fn='C16:filter_total')
+    c.run('C16.filter_foreign', 'B', filter_foreign, bound='23 foreign scope strings (malformed, other schemes, unknown / duplicated / empty query keys)', replay_fn='C16:filter_total')
     c.emit()
